@@ -148,6 +148,23 @@ class CommentStyle:
             return cls._parse_comment_single(text)
 
     @classmethod
+    def _is_single_line_comment(cls, line: str) -> bool:
+        """*line* starts with the single-line comment marker. A marker that is
+        a word ('REM', 'dnl') opens a comment only as a word of its own:
+        'REMOVE.EXE old.tmp' is a command, not a remark.
+        """
+        if cls.SINGLE_LINE_REGEXP and cls.SINGLE_LINE_REGEXP.match(line):
+            return True
+        if not line.startswith(cls.SINGLE_LINE):
+            return False
+        following = line[len(cls.SINGLE_LINE) :][:1]
+        return not (
+            cls.SINGLE_LINE[-1:].isalnum()
+            and following.isascii()
+            and (following.isalnum() or following == "_")
+        )
+
+    @classmethod
     def _parse_comment_single(cls, text: str) -> str:
         """Uncomment all lines in *text*, assuming they are commented by
         single-line comments.
@@ -166,7 +183,7 @@ class CommentStyle:
                     result_lines.append(line)
                     continue
 
-            if not line.startswith(cls.SINGLE_LINE):
+            if not cls._is_single_line_comment(line):
                 raise CommentParseError(
                     f"'{line}' does not start with a comment marker"
                 )
@@ -228,6 +245,8 @@ class CommentStyle:
         if last_is_first:
             last = first
             first = ""
+        # White space behind the terminator is not part of the comment.
+        last = last.rstrip()
         if not last.endswith(cls.MULTI_LINE.end):
             raise CommentParseError(
                 f"'{last}' does not end with a comment delimiter"
@@ -267,15 +286,18 @@ class CommentStyle:
         # never closed falls back to the single-line reading.
         if starts_multi:
             for i, line in enumerate(lines):
-                if line.endswith(cls.MULTI_LINE.end):
-                    end = i
+                # The comment ends at the first terminator (the opener itself
+                # aside). Only white space may follow it on that line: text
+                # behind the terminator is not part of the comment, so such a
+                # line cannot be replaced as a whole.
+                rest = line[len(cls.MULTI_LINE.start) :] if i == 0 else line
+                if cls.MULTI_LINE.end in rest:
+                    if line.rstrip().endswith(cls.MULTI_LINE.end):
+                        end = i
                     break
         if end is None and cls.can_handle_single():
             for i, line in enumerate(lines):
-                if (
-                    cls.SINGLE_LINE_REGEXP
-                    and cls.SINGLE_LINE_REGEXP.match(line)
-                ) or line.startswith(cls.SINGLE_LINE):
+                if cls._is_single_line_comment(line):
                     end = i
                 else:
                     break
